@@ -1,4 +1,5 @@
 import Cadence.Proofs.QueueProps
+import Cadence.Proofs.QueueCheck
 /-!
 # C08 — queuing sink: every accepted metric reaches the wrapped sink once, in order
 
@@ -44,6 +45,19 @@ theorem worker_makes_progress {cap hh} (s : St μ) (h : Reachable cap hh s) :
 /-- the deterministic schedule the correspondence runs the model in is a run of this system -/
 theorem quiescent_schedule_is_a_run {cap hh} (n : Nat) (s : St μ) (h : Reachable cap hh s) :
     Reachable cap hh (settle n s) := settle_reachable n s h
+
+/-- The executable predicates the correspondence evaluates on the implementation's observations
+(`Cadence.Check.Queue`: the per-operation clauses of C08–C11, C15, C16 and the flush delegation of C06)
+accept every history of harness operations as the model runs it, for every capacity (0 included),
+with or without a handler: a predicate failure is never an artefact of the predicates. -/
+theorem predicate_accepts_every_model_history (cap : Option Nat) (hh : Bool) (ops : List HOp) :
+    ∃ st, ckOps cap hh {} ops (modelRun cap hh ops) = .ok st :=
+  ckOps_accepts_model cap hh ops
+
+/-- the fuel of the quiescent schedule always suffices: after `settleAll` the worker is blocked
+(inside the wrapped sink, in `recv()` on an empty queue, or exited) -/
+theorem quiescent_schedule_settles (s : St M) : workerStep (settleAll s) = none :=
+  settleAll_quiescent s
 
 -- non-vacuity: clone, drop the clone, emit on the original: the metric is delivered
 example : ((runLabels (init (some 2) false : St Nat)
